@@ -453,12 +453,14 @@ int main(int argc, char ** argv) {
         }
     }
 #ifndef MC_FLAVOR_FAST
+    mc_phase(1);          /* the BFS runs advanced the case counter of some shards only */
     {
         unsigned long long nv = sweep_values() + (do_c11 ? big_queue() : 0);
         ncodes += nv;
         if (mc_shard == 0) mc_sample("value sweep: RegSet(r, v) for each of the nine writable registers r and every v in 0..65535 from 4 base states; single-bit set/clear of every bit; a 300-entry error queue filled and drained");
     }
     if (do_c12) {
+        ncodes += sweep_codes();
         if (mc_shard == 0) mc_sample("code sweep: ErrorPush(c) for every c in -32768..32767 on ESR in {0, ~class, 0xff}");
     }
 #endif
